@@ -65,6 +65,15 @@ fn vio(kind: &str, detail: String, info: String) -> Violation {
 }
 
 pub fn oracle(ops: &Vec<CkOp>) -> Vec<Violation> {
+    // the accumulator accepts every byte string: a panic (e.g. an arithmetic overflow trap in a
+    // build with overflow checks) is a violation, not an infrastructure problem
+    match std::panic::catch_unwind(|| oracle_inner(ops)) {
+        Ok(v) => v,
+        Err(_) => vec![vio("panicked", format!("overflow-checks:{}", if overflow_checks_on() { "on" } else { "off" }), format!("ops={}", ops.len()))],
+    }
+}
+
+fn oracle_inner(ops: &Vec<CkOp>) -> Vec<Violation> {
     let mut c = Checksum::default();
     let mut model: i128 = 0;
     let mut out = Vec::new();
@@ -213,6 +222,59 @@ pub fn run(ctx: &Ctx) {
     ctx.add_sample(json!({"table": "state s, byte b: add/sub/append/delete/sink-byte"}));
     // slices of every length 0..=2100 (and 4096, 65536, 70001) of heavy fill bytes, through
     // append, delete and the sink's vec entry
+    // every slice of length 1..=6 over {00,01,7f,80,ff}: append, delete, append-then-delete
+    let alpha = [0x00u8, 0x01, 0x7f, 0x80, 0xff];
+    let mut short = 0u64;
+    let mut sv = Vec::new();
+    for len in 1..=6usize {
+        let total = alpha.len().pow(len as u32);
+        for idx in 0..total {
+            let mut k = idx;
+            let data: Vec<u8> = (0..len)
+                .map(|_| {
+                    let b = alpha[k % alpha.len()];
+                    k /= alpha.len();
+                    b
+                })
+                .collect();
+            let want: u8 = data.iter().fold(0u8, |a, b| a.wrapping_add(*b));
+            let r = std::panic::catch_unwind(|| {
+                let mut out = Vec::new();
+                for start in [0u8, 0x5a, 0xff] {
+                    let mut c = state(start);
+                    c.append(&data);
+                    if c.raw_value() != start.wrapping_add(want) {
+                        out.push(("accumulator", "append-short-slice"));
+                    }
+                    c.delete(&data);
+                    if c.raw_value() != start {
+                        out.push(("inverse", "append-delete-short-slice"));
+                    }
+                    let mut c = state(start);
+                    c.delete(&data);
+                    if c.raw_value() != start.wrapping_sub(want) {
+                        out.push(("accumulator", "delete-short-slice"));
+                    }
+                }
+                out
+            });
+            match r {
+                Ok(o) => {
+                    for (k, d) in o {
+                        sv.push(vio(k, format!("{} len={}", d, len), format!("data={:02x?}", data)));
+                    }
+                }
+                Err(_) => sv.push(vio("panicked", format!("short-slice len={}", len), format!("data={:02x?}", data))),
+            }
+            short += 9;
+        }
+    }
+    ctx.add_evals(short);
+    ctx.add_subdomain("append / delete / append-then-delete of every slice of length 1..=6 over {00,01,7f,80,ff} from 3 states", short, true);
+    ctx.add_nontrivial_counted(short / 9);
+    sv.sort_by_key(|v| v.sig());
+    sv.dedup_by_key(|v| v.sig());
+    ctx.report("c17.table", json!({"case": []}), sv);
     let mut lens: Vec<usize> = (0..=2100).collect();
     lens.extend([4095usize, 4096, 4097, 65_535, 65_536, 70_001]);
     let mut m = 0u64;
@@ -221,21 +283,35 @@ pub fn run(ctx: &Ctx) {
         for &n in &lens {
             let data = vec![fill; n];
             let want = ((fill as u64 * n as u64) % 256) as u8;
-            let mut c = Checksum::default();
-            c.append(&data);
-            if c.raw_value() != want {
-                lv.push(vio("accumulator", "append-long-slice".into(), format!("fill={:#x} len={} raw={} want={}", fill, n, c.raw_value(), want)));
+            for start in [0u8, 0x01, 0xa5] {
+                let r = std::panic::catch_unwind(|| {
+                    let mut out: Vec<(&str, &str)> = Vec::new();
+                    let mut c = state(start);
+                    c.append(&data);
+                    if c.raw_value() != start.wrapping_add(want) {
+                        out.push(("accumulator", "append-long-slice"));
+                    }
+                    c.delete(&data);
+                    if c.raw_value() != start {
+                        out.push(("inverse", "append-delete-long-slice"));
+                    }
+                    let mut c = state(start);
+                    AmlSink::vec(&mut c, &data);
+                    if c.raw_value() != start.wrapping_add(want) {
+                        out.push(("accumulator", "sink-vec-long-slice"));
+                    }
+                    out
+                });
+                match r {
+                    Ok(o) => {
+                        for (k, d) in o {
+                            lv.push(vio(k, d.to_string(), format!("fill={:#x} len={} start={}", fill, n, start)));
+                        }
+                    }
+                    Err(_) => lv.push(vio("panicked", "long-slice".into(), format!("fill={:#x} len={} start={}", fill, n, start))),
+                }
+                m += 3;
             }
-            c.delete(&data);
-            if c.raw_value() != 0 {
-                lv.push(vio("inverse", "append-delete-long-slice".into(), format!("fill={:#x} len={}", fill, n)));
-            }
-            let mut c = Checksum::default();
-            AmlSink::vec(&mut c, &data);
-            if c.raw_value() != want {
-                lv.push(vio("accumulator", "sink-vec-long-slice".into(), format!("fill={:#x} len={}", fill, n)));
-            }
-            m += 3;
         }
     }
     ctx.add_evals(m);
